@@ -108,8 +108,8 @@ type script struct {
 	shutdown   bool      // a thread calls PubSub.Shutdown at any point
 	trace      bool      // notifications.New(traceBlock)
 	degenerate bool      // empty key list / undefined cid (sequential)
-	delta      int // added to the tier's deviation bound in the quick tier
-	deltaT     int // ... in the thorough tier
+	delta      int       // added to the tier's deviation bound in the quick tier
+	deltaT     int       // ... in the thorough tier
 	maxSteps   int
 }
 
